@@ -944,6 +944,11 @@ func checkIPv4(data string) bool {
 		if len(f) == 0 {
 			return false
 		}
+		for j := 0; j < len(f); j++ { //nolint:intrange // Not supported by NeoGo
+			if f[j] < '0' || f[j] > '9' {
+				return false
+			}
+		}
 		number := std.Atoi10(f)
 		if number < 0 || 255 < number {
 			panic("not a byte")
